@@ -124,6 +124,14 @@ def run(e: Engine, rep: Report):
              'objects, so an inner line equal to the last one is written '
              'with the last-line separator and ends the reply early')
     w14(e, rep)
+    rep.rule('W15', 'no way round the line cutter: the text of a reply '
+             'reaches the socket only as the lines the line pattern cut it '
+             'into - a send of the text itself (a one-line fast path) is '
+             'guarded by a test for a bare LF, the line break recv_reply '
+             'also honours (a test for CRLF alone lets "a\\nb" out as one '
+             'physical line; the reader ends the reply at the LF and takes '
+             'the rest for the next reply)')
+    w15(e, rep)
     rep.floor('W2', 4, 'framing agreement obligations')
 
 
@@ -1637,3 +1645,121 @@ def w14(e: Engine, rep: Report):
         rep.ok('W14', IOC, 'no identity comparison in the reply / command '
                'writers and readers', reason='nothing compared with `is`',
                nontrivial=False)
+
+
+# ---------------------------------------------------------------------- W15
+def w15(e: Engine, rep: Report):
+    try:
+        ctx = e.method_ctx(IOC, 'send_reply')
+    except Exception:
+        rep.error('anchor vanished: IO.send_reply')
+        return
+    SENDS = ('buffered_send', 'raw_send', 'send', 'sendall')
+    n = 0
+    for fn in _reply_writers(e, ctx):
+        where = ctx.func.qname if fn is ctx.func.node else \
+            '%s (%s)' % (ctx.func.qname, fn.name)
+        rep.functions.add(where)
+        loop_targets = set()
+        for x in walk_own(fn):
+            if isinstance(x, (ast.For, ast.comprehension)):
+                loop_targets |= {t.id for t in ast.walk(x.target)
+                                 if isinstance(t, ast.Name)}
+        tainted = set()
+        if fn is not ctx.func.node:
+            # a helper: every parameter may carry the text
+            tainted |= {a.arg for a in fn.args.args
+                        if a.arg not in ('self', 'cls')}
+        changed = True
+        while changed:
+            changed = False
+            for x in walk_own(fn):
+                if not isinstance(x, (ast.Assign, ast.AugAssign,
+                                      ast.AnnAssign)) or x.value is None:
+                    continue
+                src = any((isinstance(y, ast.Attribute) and
+                           y.attr == 'message') or
+                          (isinstance(y, ast.Name) and y.id in tainted)
+                          for y in ast.walk(x.value))
+                cut = any(isinstance(y, ast.Call) and
+                          isinstance(y.func, ast.Attribute) and
+                          y.func.attr in ('finditer', 'findall', 'split',
+                                          'splitlines', 'sub')
+                          for y in ast.walk(x.value))
+                if not src or cut:
+                    continue
+                tg = x.targets if isinstance(x, ast.Assign) else [x.target]
+                for t in tg:
+                    if isinstance(t, ast.Name) and t.id not in tainted and \
+                            t.id not in loop_targets:
+                        tainted.add(t.id)
+                        changed = True
+        parents = {}
+        for x in ast.walk(fn):
+            for ch in ast.iter_child_nodes(x):
+                parents[ch] = x
+        for c in walk_own(fn):
+            if not (isinstance(c, ast.Call) and
+                    isinstance(c.func, ast.Attribute) and
+                    c.func.attr in SENDS):
+                continue
+            n += 1
+            rep.evaluations += 1
+            raw = sorted({y.id for a in c.args for y in ast.walk(a)
+                          if isinstance(y, ast.Name) and y.id in tainted})
+            if not raw:
+                rep.ok('W15', where, ast.unparse(c)[:60], loc='%s:%d' % (
+                    ctx.func.module.relpath, c.lineno),
+                    reason='sends what the lines were joined into, not the '
+                    'text')
+                continue
+            tests = []
+            x = c
+            while x in parents and parents[x] is not fn:
+                par = parents[x]
+                if isinstance(par, (ast.If, ast.While)) and x is not par.test:
+                    tests.append(par.test)
+                body = None
+                for fld in ('body', 'orelse', 'finalbody'):
+                    lst = getattr(par, fld, None)
+                    if isinstance(lst, list) and x in lst:
+                        body = lst
+                if body is not None:
+                    for sib in body[:body.index(x)]:
+                        if isinstance(sib, ast.If) and sib.body and \
+                                isinstance(sib.body[-1], (ast.Return,
+                                                          ast.Raise)):
+                            tests.append(sib.test)
+                x = par
+            if x in getattr(fn, 'body', []):
+                for sib in fn.body[:fn.body.index(x)]:
+                    if isinstance(sib, ast.If) and sib.body and \
+                            isinstance(sib.body[-1], (ast.Return, ast.Raise)):
+                        tests.append(sib.test)
+            consts = [y.value for t in tests for y in ast.walk(t)
+                      if isinstance(y, ast.Constant) and
+                      isinstance(y.value, (str, bytes))]
+            opaque = any(isinstance(y, ast.Call) for t in tests
+                         for y in ast.walk(t))
+            lf = any(v in (b'\n', '\n') for v in consts)
+            loc = '%s:%d' % (ctx.func.module.relpath, c.lineno)
+            text = 'the text itself (%s) is sent by %s' % (
+                ', '.join(raw), ast.unparse(c.func))
+            if lf:
+                rep.ok('W15', where, text, loc=loc,
+                       reason='under a test for a bare LF')
+            elif opaque and not consts:
+                rep.unknown('W15', where, text, 'the guard of this send is '
+                            'a call this rule does not read', loc=loc)
+            else:
+                rep.bad('W15', where, text,
+                        'the reply text reaches the socket without passing '
+                        'the line cutter, and no test on the way excludes a '
+                        'bare LF (tests seen: %s): a text "a\\nb" goes out '
+                        'as ONE physical line "250 a\\nb\\r\\n"; recv_reply '
+                        'ends the line at the LF, returns "a" and leaves '
+                        '"b\\r\\n" to be read as the next reply (BadReply)'
+                        % (sorted(set(map(repr, consts))) or 'none'),
+                        loc=loc)
+    if n == 0:
+        rep.error('anchor vanished: no send call in IO.send_reply')
